@@ -19,7 +19,7 @@ import (
 	"verif/harness/sm"
 )
 
-const ruleC18 = "Go values described by a serialisable spec and built by reflection: every integer and float width, named types, strings, bools, times, pointer chains of depth 1-3 (to values, to times, nil at any level), slices, arrays, map[string]interface{}, maps with non-string keys, a hand-written struct family (rename, omitempty, nested, pointer-to-struct, embedded value and embedded pointer, json+clover tags, unexported field) and unsupported kinds (chan, func, complex128, uintptr). Each value is stored with Document.Set at a generated dotted path of a generated base document (and through NewDocumentOf for maps and structs). Oracle: reference normaliser written from the property statement; unsupported => document unchanged; Has(p), Get(p) = norm(v), every proper prefix of p is an object, unrelated paths unchanged; idempotence (Set(p, Get(p)) changes nothing); struct -> NewDocumentOf -> Unmarshal gives an equal struct. An evaluation is one value; non-trivial when the value contains a pointer, a struct or nests >= 2 levels; distinct = distinct (spec, path, base)."
+const ruleC18 = "Go values described by a serialisable spec and built by reflection: every integer and float width, named types, strings, bools, times, pointer chains of depth 1-3 (to values, to times, nil at any level), slices, arrays, map[string]interface{}, maps keyed by a defined string type, maps with non-string keys, two distinct function-local struct types that print the same name, a hand-written struct family (rename, omitempty, nested, pointer-to-struct, embedded value and embedded pointer, json+clover tags, unexported field) and unsupported kinds (chan, func, complex128, uintptr). Each value is stored with Document.Set at a generated dotted path of a generated base document (and through NewDocumentOf for maps and structs). Oracle: reference normaliser written from the property statement; unsupported => document unchanged; Has(p), Get(p) = norm(v), every proper prefix of p is an object, unrelated paths unchanged; idempotence (Set(p, Get(p)) changes nothing); struct -> NewDocumentOf -> Unmarshal gives an equal struct. An evaluation is one value; non-trivial when the value contains a pointer, a struct or nests >= 2 levels; distinct = distinct (spec, path, base)."
 
 type c18Case struct {
 	Base cs.Doc     `json:"base"`
@@ -103,7 +103,7 @@ func c18Body(c *c18Case) *sm.Fail {
 		return bad("idempotence", "Set(p, Get(p)) changed the document from %s to %s", cs.Show(after), cs.Show(again))
 	}
 	// NewDocumentOf for maps and structs
-	if c.Val.K == "map" || c.Val.K == "struct" || (c.Val.K == "ptr" && c.Val.Of != nil && c.Val.Of.K == "struct") {
+	if c.Val.K == "map" || c.Val.K == "nmap" || c.Val.K == "struct" || (c.Val.K == "ptr" && c.Val.Of != nil && c.Val.Of.K == "struct") {
 		nd := document.NewDocumentOf(goval.Build(&c.Val))
 		if nd == nil {
 			return bad("newdocumentof", "NewDocumentOf returned nil for a convertible value")
@@ -115,7 +115,7 @@ func c18Body(c *c18Case) *sm.Fail {
 		if sp.K == "ptr" {
 			sp = sp.Of
 		}
-		if sp.K == "struct" && jsonSafe(want) {
+		if sp.K == "struct" && jsonSafe(want) && sp.Struct != "LocalA" && sp.Struct != "LocalB" {
 			orig := sp.Fields.Build(sp.Struct)
 			ov := reflect.ValueOf(orig)
 			if ov.Kind() == reflect.Ptr {
@@ -280,7 +280,7 @@ func genSpec(t *rapid.T, depth int) goval.Spec {
 		return s
 	case 17, 18:
 		n := rapid.IntRange(0, 3).Draw(t, "nkeys")
-		s := goval.Spec{K: "map"}
+		s := goval.Spec{K: rapid.SampledFrom([]string{"map", "map", "nmap"}).Draw(t, "mapkind")}
 		seen := map[string]bool{}
 		for i := 0; i < n; i++ {
 			key := rapid.SampledFrom([]string{"a", "b", "ab", "", "a.b"}).Draw(t, "mkey")
@@ -299,7 +299,7 @@ func genSpec(t *rapid.T, depth int) goval.Spec {
 		}
 		return s
 	default:
-		return goval.Spec{K: "struct", Struct: rapid.SampledFrom([]string{"Inner", "PtrInner", "Flat", "Outer", "Outer", "EmbPtr", "Tagged", "Cross"}).Draw(t, "struct"), Fields: genFamily(t)}
+		return goval.Spec{K: "struct", Struct: rapid.SampledFrom([]string{"Inner", "PtrInner", "Flat", "Outer", "Outer", "EmbPtr", "Tagged", "Cross", "LocalA", "LocalB", "LocalB", "LocalA"}).Draw(t, "struct"), Fields: genFamily(t)}
 	}
 }
 
